@@ -163,6 +163,7 @@ func checkC13(p *Prog, r *Report) {
 	r.rule("C13.accept-agreement (labelled path comparison): every complete path of UnmarshalPartialResource and of UnmarshalResource is explored with loops unrolled once and each non-folding branch named by the question it asks (skeleton decode error, type missing, attribute known, attribute decode error, relationship known, relationship has data, to-one, linkage decode error); two paths, one of each function, whose answers do not contradict each other must end the same way (success, or an error built by the same constructor)")
 	r.rule("C13.same-values: on non-contradicting successful paths the two functions perform the same Set calls (same field name term, same value term) and no additional call reorders or rewrites a value (e.g. a sort) in only one of them")
 	r.rule("C13.presence: in the partial function AddAttr is called only with the schema type's own attribute found for the payload key, AddRel only with the schema type's own relationship and only on paths that answered 'relationship has data' with yes for that relationship; the new type gets its name from the schema type and nothing else from it")
+	r.rule("C13.fresh-linkage / C13.plumbing (shared with C01/C06): in both functions the variables a relationship's linkage is decoded into are declared inside the loop over the relationships, and the values handed to Set are the decoded ones")
 	r.rule("R4a: the discarded errors of AddAttr/AddRel are justified by C13.presence (arguments are the schema's own definitions, map keys are unique)")
 	r.assume("both functions decode with encoding/json into the same skeleton type; decode calls with the same argument terms yield the same values")
 	r.notCovered("value equality with full unmarshaling beyond the shared decode calls (C06 decides the decoders)")
@@ -174,6 +175,11 @@ func checkC13(p *Prog, r *Report) {
 	}
 	r.fn(funcName(full))
 	r.fn(funcName(part))
+	// the plumbing both functions share (fresh linkage variables per relationship,
+	// values passed to Set as decoded): a field reported by the partial function
+	// must carry the value full unmarshaling gives it, which presupposes that
+	// neither lets one relationship's linkage leak into the next
+	checkUnmarshalPlumbing(p, r, "C13")
 	fp, pp := explorePaths(p, full), explorePaths(p, part)
 	r.floor("complete paths of UnmarshalResource", len(fp), 20)
 	r.floor("complete paths of UnmarshalPartialResource", len(pp), 20)
